@@ -169,38 +169,71 @@ def run(ctx):
         # ---- R2
         errs = [(bb, e) for bb, e, item in paths.return_exprs(b, eb) if paths.is_err_of(e, "ModelError::MetadataError")]
         found = {"global": False, "count": False, "stream": False}
-        for bb, e in errs:
-            for g in paths.guards(b, bb, eb):
-                if g[0] not in ("true", "false"):
-                    continue
-                pos, cmp_ = paths.bool_atoms(g)
-                txt = show(cmp_)
-                # global metadata: ne(voice.metadata, first.metadata) true / eq(...) false
-                if cmp_[0] == "call" and (cmp_[1].endswith("PartialEq::ne") or cmp_[1].endswith("PartialEq>::ne")) and pos or \
-                        cmp_[0] == "call" and (cmp_[1].endswith("PartialEq::eq") or cmp_[1].endswith("PartialEq>::eq")) and not pos:
-                    a0, a1 = show(cmp_[2][0]), show(cmp_[2][1])
-                    if a0.endswith(".metadata") and a1.endswith(".metadata") and "stream_models" not in a0 + a1 and a0 != a1:
-                        found["global"] = True
-                if cmp_[0] == "bin" and ((cmp_[1] == "Ne" and pos) or (cmp_[1] == "Eq" and not pos)):
-                    l, r = show(cmp_[2]), show(cmp_[3])
-                    if l.startswith("len(") and r.startswith("len(") and "stream_models" in l and "stream_models" in r and l != r:
-                        found["count"] = True
-                if cmp_[0] == "call" and cmp_[1].endswith("Iterator::all") and not pos:
-                    if "stream_models" in txt and "zip" in txt:
-                        # the predicate closure compares the two metadata fields with ==
-                        clos = [x for x in walk(cmp_) if x[0] == "agg" and x[1].startswith("closure:")]
-                        okc = False
-                        for c in clos:
-                            cb = p.bodies.get(c[1][len("closure:"):])
-                            if cb is None:
-                                continue
-                            r = ExprBuilder(cb).local(0)
-                            if r[0] == "call" and r[1].endswith("PartialEq>::eq"):
-                                x0, x1 = show(r[2][0]), show(r[2][1])
-                                if x0.endswith(".metadata") and x1.endswith(".metadata") and x0 != x1:
-                                    okc = True
-                        if okc:
-                            found["stream"] = True
+        # must-reach: the *inequality* outcome of each comparison, taken alone, has to end in
+        # Err(MetadataError): from its target neither the next loop iteration nor an Ok return may be
+        # reachable without passing an Err(MetadataError) return (`a != b && c != d` instead of two
+        # separate tests satisfies the existence check above but not this one)
+        err_blocks = set(bb for bb, e in errs)
+        ok_blocks = [bb for bb, e, item in paths.return_exprs(b, eb) if paths.is_ok(e)]
+        headers = [h for h, lb in b.natural_loops()]
+
+        def classify(g):
+            if g[0] not in ("true", "false"):
+                return None
+            pos, cmp_ = paths.bool_atoms(g)
+            txt = show(cmp_)
+            if cmp_[0] == "call" and ((cmp_[1].endswith("PartialEq::ne") or cmp_[1].endswith("PartialEq>::ne")) and pos or
+                                      (cmp_[1].endswith("PartialEq::eq") or cmp_[1].endswith("PartialEq>::eq")) and not pos):
+                a0, a1 = show(cmp_[2][0]), show(cmp_[2][1])
+                if a0.endswith(".metadata") and a1.endswith(".metadata") and "stream_models" not in a0 + a1 and a0 != a1:
+                    return "global"
+            if cmp_[0] == "bin" and ((cmp_[1] == "Ne" and pos) or (cmp_[1] == "Eq" and not pos)):
+                l, r = show(cmp_[2]), show(cmp_[3])
+                if l.startswith("len(") and r.startswith("len(") and "stream_models" in l and "stream_models" in r and l != r:
+                    return "count"
+            if cmp_[0] == "call" and cmp_[1].endswith("Iterator::all") and not pos and "stream_models" in txt and "zip" in txt:
+                # the predicate closure compares the two metadata fields with ==
+                for cl in [x for x in walk(cmp_) if x[0] == "agg" and x[1].startswith("closure:")]:
+                    cb = p.bodies.get(cl[1][len("closure:"):])
+                    if cb is None:
+                        continue
+                    r = ExprBuilder(cb).local(0)
+                    if r[0] == "call" and r[1].endswith("PartialEq>::eq"):
+                        x0, x1 = show(r[2][0]), show(r[2][1])
+                        if x0.endswith(".metadata") and x1.endswith(".metadata") and x0 != x1:
+                            return "stream"
+            return None
+        escapes = {}
+        sw_of = {}
+        for sb, g, tg in paths.switch_outcomes(b, eb):
+            k = classify(g)
+            if k is None:
+                continue
+            esc = [x for x in headers + ok_blocks if b.can_reach(tg, x, avoid=err_blocks)]
+            escapes.setdefault(k, []).append(bool(esc))
+            sw_of.setdefault(k, set()).add(sb)
+        # ... and no comparison can be skipped: an iteration cannot get from the loop body's entry to
+        # the next iteration / the Ok return around the comparison's test
+        for h, lb in b.natural_loops():
+            # the iteration proper starts on the `Some` outcome of the iterator's next()
+            entries = [tg for sb, g, tg in paths.switch_outcomes(b, eb) if sb in lb and tg in lb and g[0] == "some" and "::next(" in show(g[1])]
+            if not entries:
+                ctx.note("C19-R2: loop iteration entry not identified; the unskippable-comparison clause was not evaluated")
+                continue
+            for k, sbs in sw_of.items():
+                skipped = any(b.can_reach(en, x, avoid=err_blocks | sbs) for en in entries for x in [h] + ok_blocks)
+                if skipped:
+                    found[k] = False
+                    ctx.fail("C19-R2", b.path, "comparison skipped " + k, "an iteration over a further voice can complete without evaluating the %s comparison (it sits behind another condition)" % k, b.loc())
+                else:
+                    ctx.ok("C19-R2", "every iteration evaluates the %s comparison" % k, b.loc())
+        for k in ("global", "count", "stream"):
+            if k in escapes and not any(escapes[k]):
+                found[k] = True
+                ctx.ok("C19-R2", "the failing outcome of the %s comparison always ends in Err(MetadataError)" % k, b.loc())
+            elif k in escapes:
+                found[k] = False
+                ctx.fail("C19-R2", b.path, "inequality accepted " + k, "when the %s comparison fails the voice can still be accepted: from that outcome the next iteration / the Ok return is reachable without an Err(MetadataError) (comparisons joined with && instead of tested separately?)" % k, b.loc())
         for k, v in found.items():
             if v:
                 ctx.ok("C19-R2", "VoiceSet::new returns MetadataError when the %s comparison fails" % k, b.loc())
